@@ -1,6 +1,6 @@
 SPECIFICATION Spec
 CONSTANTS
-  Deep = FALSE
+  Deep = TRUE
   Mode = "mutants"
-INVARIANTS EncodingOK ParseTotal FixedPoint
+INVARIANTS Emit
 CHECK_DEADLOCK FALSE
